@@ -7,6 +7,12 @@ namespace Librfn.Gen
 
 abbrev Mem := BitVec 64 → BitVec 8
 
+/-- one executed call of an external function in the trace a generated definition reports (arguments widened to 64 bits) -/
+structure ExtCall where
+  name : String
+  args : List (BitVec 64)
+  deriving DecidableEq, Repr
+
 namespace Mem
 
 def store (m : Mem) (a : BitVec 64) (v : BitVec 8) : Mem := fun x => if x = a then v else m x
